@@ -102,6 +102,8 @@ pub struct SplitFam;
 // incl. shorter chars that share their last byte(s) with a longer delimiter char: ¬ (C2 AC) vs € (E2 82 AC);
 // À (C3 80), U+3000 (E3 80 80) vs 😀 (F0 9F 98 80)
 const ALPHA: &[&str] = &["a", "b", ",", "é", "€", "😀", "aa", "ab", "a", ",", "ᄀ", "à", "¬", "À", "\u{3000}", "ì"];
+/// one char at each boundary of the UTF-8 lead-byte classes (C2, DF, E0, ED, EE, EF, F0, F4)
+const LEAD_BYTE_EDGES: &[&str] = &["\u{80}", "\u{7ff}", "\u{800}", "\u{fff}", "\u{d7ff}", "\u{e000}", "\u{f000}", "\u{feff}", "\u{ffff}", "\u{10000}", "\u{3ffff}", "\u{10ffff}"];
 const DELIMS: &[&str] = &["", "a", "aa", "ab", "aab", ",", ",,", "é", "€a", "aba", "abab", "b", "😀", ",a,", "aaa", "abaab", "aabaa", "ééa", "€€", "a😀a", "<--"];
 const DELIM_CHARS: &[char] = &['a', ',', '€', 'é', '😀', 'b'];
 
@@ -169,6 +171,8 @@ impl Fam for SplitFam {
                 let idx: Vec<usize> = ds.char_indices().map(|(i, _)| i).collect();
                 let k = *rng.pick(&idx);
                 &ds[..k]
+            } else if rng.chance(1, 8) {
+                *rng.pick(LEAD_BYTE_EDGES)
             } else {
                 *rng.pick(ALPHA)
             };
